@@ -236,9 +236,11 @@ class Proxy:
         # we are listening upon.  This is necessary to preserve
         # the server port when `--port=0` is used.
         if not self.flags.unix_socket_path:
+            # ListenerPool creates the --ports listeners first and
+            # the --port (primary) listener after them.
             self.flags.port = cast(
                 'TcpSocketListener',
-                self.listeners.pool[0],
+                self.listeners.pool[len(self.flags.ports)],
             )._port
         # --ports flag can also use 0 as value for ephemeral port selection.
         # Here, we override flags.ports to reflect actual listening ports.
